@@ -226,7 +226,8 @@ def run(F, R, tier):
                 rt = ((gc.get("mir") or {}).get("locals") or [{}])[0].get("ty", "")
                 return c in tab.values() or "std::io::Error" in rt or gc.get("file") != g["file"]
             res2 = consumers(F, g, p, H.beta(H.unlet(H.split_tuple_lets(H.inline_helpers(F, b, max_size=200, skip=keep_)))))
-            if res2 and (all(r[1] for r in res2) or sum(1 for r in res2 if not r[1]) <= sum(1 for r in res if not r[1])):
+            if res2 and len(res2) >= len(res) and (all(r[1] for r in res2) or sum(1 for r in res2 if not r[1]) <= sum(1 for r in res if not r[1])):
+                # (only when no producer got lost on the way to the normal form)
                 # (also when it does not pass: what is wrong is said about the code as it reads with its helpers in place)
                 res = [(k_, o_, "in normal form: " + d_, l_) for k_, o_, d_, l_ in res2]
         n_sites += len(res)
@@ -265,7 +266,8 @@ def run(F, R, tier):
     # pcap.rs: functions returning io::Result propagate inner results with `?`
     n_p = 0
     for p, g in sorted(F.fns.items()):
-        if not g["file"].endswith("builtins/pcap.rs"):
+        # (object/file.rs too: reads and writes may live in methods of the file handle)
+        if not g["file"].endswith(("builtins/pcap.rs", "object/file.rs")):
             continue
         b = H.body_of(g)
         if b is None:
